@@ -22,11 +22,21 @@ structure Pkt where
   mark : Nat
   dstLocal : Bool          -- addrtype --dst-type LOCAL
   srcSets : List String    -- IP sets that contain the source address
+  dstSets : List String := []   -- IP sets that contain the destination address
+  srcLocal : Bool := false      -- addrtype --src-type LOCAL
+  rpfFail : Bool := false       -- the reverse-path check (rpfilter --invert) fails
+  dnat : Bool := false          -- conntrack status DNAT
 deriving Repr, DecidableEq
 
-/-- `--in-interface cali+` : `+` is the iptables wildcard. -/
+def lastIsPlus : List Char → Bool
+  | [] => false
+  | [c] => c == '+'
+  | _ :: cs => lastIsPlus cs
+
+/-- `--in-interface cali+` : a trailing `+` is the iptables wildcard (prefix match). -/
 def ifaceMatches (pat name : String) : Bool :=
-  if pat.endsWith "+" then (pat.dropEnd 1).toString.isPrefixOf name else pat == name
+  let p := pat.toList
+  if lastIsPlus p then p.dropLast.isPrefixOf name.toList else pat == name
 
 def inNet (addr netAddr len : Nat) : Bool := addr / 2 ^ (32 - len) == netAddr / 2 ^ (32 - len)
 
@@ -45,6 +55,11 @@ inductive Crit where
   | ctInvalid                                   -- `-m conntrack --ctstate INVALID`
   | srcSet (name : String)                      -- `-m set --match-set name src`
   | dstLocal                                    -- `-m addrtype --dst-type LOCAL`
+  | dport1 (p : Nat)                            -- `--dport p` (after `-p udp`)
+  | dstSet (name : String)                      -- `-m set --match-set name dst`
+  | srcLocal                                    -- `-m addrtype --src-type LOCAL`
+  | rpfFailed                                   -- `-m rpfilter --invert --validmark`
+  | notCtDNAT                                   -- `-m conntrack ! --ctstate DNAT`
 deriving Repr, DecidableEq
 
 def Crit.holds (p : Pkt) : Crit → Bool
@@ -62,6 +77,11 @@ def Crit.holds (p : Pkt) : Crit → Bool
   | .ctInvalid => p.ct == 2
   | .srcSet s => p.srcSets.contains s
   | .dstLocal => p.dstLocal
+  | .dport1 d => p.dport == d
+  | .dstSet s => p.dstSets.contains s
+  | .srcLocal => p.srcLocal
+  | .rpfFailed => p.rpfFail
+  | .notCtDNAT => !p.dnat
 
 inductive Action where
   | accept | drop | ret
@@ -91,7 +111,7 @@ deriving Repr, DecidableEq
 abbrev Chains := String → Option (List Rule)
 
 /-- bit-clear on marks. -/
-def clearBits (mark m : Nat) : Nat := mark - (mark &&& m)
+def clearBits (mark m : Nat) : Nat := mark ^^^ (mark &&& m)
 
 /-- run a rule list, given how to run a callee chain. -/
 def runRulesWith (call : String → Pkt → Res) : List Rule → Pkt → Res
@@ -144,6 +164,11 @@ def Crit.render : Crit → String
   | .ctInvalid => "-m conntrack --ctstate INVALID"
   | .srcSet s => s!"-m set --match-set {s} src"
   | .dstLocal => "-m addrtype --dst-type LOCAL"
+  | .dport1 d => s!"--dport {d}"
+  | .dstSet s => s!"-m set --match-set {s} dst"
+  | .srcLocal => "-m addrtype --src-type LOCAL"
+  | .rpfFailed => "-m rpfilter --invert --validmark"
+  | .notCtDNAT => "-m conntrack ! --ctstate DNAT"
 
 def Action.render : Action → String
   | .accept => "--jump ACCEPT"
@@ -163,5 +188,61 @@ def Rule.render (chain : String) (r : Rule) : String :=
 
 def renderChain (name : String) (rs : List Rule) : String :=
   if rs.isEmpty then name ++ " <empty>" else " ;; ".intercalate (rs.map (Rule.render name))
+
+
+/-! ## nftables text (what `nftRenderer.Render` puts in `knftables.Rule.Rule`, IPv4) -/
+
+/-- the transport protocol name used by port matches (`nftMatch.transportProto`). -/
+def transportOf (crits : List Crit) : String :=
+  match crits.findSome? (fun c => match c with
+    | .protoName n _ => some n
+    | .protoNum 6 => some "tcp"
+    | .protoNum 17 => some "udp"
+    | .protoNum 132 => some "sctp"
+    | _ => none) with
+  | some n => n
+  | none => "?"
+
+def nftIface (pat : String) : String :=
+  if pat.endsWith "+" then (pat.dropEnd 1).toString ++ "*" else pat
+
+def Crit.renderNft (tp : String) : Crit → String
+  | .protoName n _ => s!"meta l4proto {n}"
+  | .protoNum n => s!"meta l4proto {n}"
+  | .dports d => s!"{tp} dport " ++ "{ " ++ toString d ++ " }"
+  | .sports d => s!"{tp} sport " ++ "{ " ++ toString d ++ " }"
+  | .srcNet t _ _ => s!"ip saddr {t}"
+  | .dstNet t _ _ => s!"ip daddr {t}"
+  | .inIf pat => s!"iifname {nftIface pat}"
+  | .outIf pat => s!"oifname {nftIface pat}"
+  | .markSet m => s!"meta mark & {hex m} == {hex m}"
+  | .markClear m => s!"meta mark & {hex m} == 0"
+  | .ctEstablished => "ct state related,established"
+  | .ctInvalid => "ct state invalid"
+  | .srcSet s => s!"ip saddr @{s}"
+  | .dstLocal => "fib daddr type local"
+  | .dport1 d => s!"{tp} dport {d}"
+  | .dstSet s => s!"ip daddr @{s}"
+  | .srcLocal => "fib saddr type local"
+  | .rpfFailed => "fib saddr . mark . iif oif 0"
+  | .notCtDNAT => "ct status != dnat"
+
+def Action.renderNft : Action → String
+  | .accept => "counter accept"
+  | .drop => "counter drop"
+  | .ret => "counter return"
+  | .jump c => s!"counter jump {c}"
+  | .goto c => s!"counter goto {c}"
+  | .setMark m => s!"counter meta mark set mark or {hex m}"
+  | .clearMark m => s!"counter meta mark set mark & {hex (0xffffffff - m)}"
+  | .notrack => "counter notrack"
+
+def Rule.renderNft (chain : String) (r : Rule) : String :=
+  let tp := transportOf r.crits
+  chain ++ ": " ++ " ".intercalate (r.crits.map (Crit.renderNft tp) ++ [r.action.renderNft]) ++
+    (match r.comment with | some c => " #" ++ c | none => "")
+
+def renderChainNft (name : String) (rs : List Rule) : String :=
+  if rs.isEmpty then name ++ " <empty>" else " ;; ".intercalate (rs.map (Rule.renderNft name))
 
 end CalicoVerif.C40
